@@ -216,26 +216,82 @@ Lemma cert_example_moments : forall k, (k <= 1)%nat ->
   Rabs (moment (big_rule 0 0 (BigZ.zero :: nil) (BigZ.two :: nil)) k - leg_moment k) <= IZR 0 / IZR 1.
 Proof. apply cert_check_big_sound; [discriminate | discriminate | reflexivity | exact cert_example]. Qed.
 
-(* ------------------------------------------------------------------ the gauss-quad adapter (hand model in Model/Quadrature.v) *)
-(* 1-D: whatever table the crate holds, if its [gl_points degree]-point rule carries a certificate, the adapter integrates
-   every complex polynomial of degree <= d within the certificate bound *)
+(* ------------------------------------------------------------------ the gauss-quad adapter: the TRANSLATED arms
+   Integrator::GaussLegendre of integrate / integrate2d (Gen/Integration.v), with the external crate as the oracle
+   [rule_oracle table] — any table of fixed linear rules, applied with gauss-quad's affine transfer *)
+Lemma ssum_R : forall l : list R, ssum Rops l = rsum l.
+Proof.
+  intros l. unfold ssum. cbn [s_of_Z Rops sadd].
+  assert (G : forall acc, fold_left Rplus l acc = acc + rsum l).
+  { induction l as [|x l IH]; intros acc; cbn [fold_left rsum]; [lra | rewrite IH; lra]. }
+  rewrite G. lra.
+Qed.
+
+Lemma rule_oracle_R : forall (table : Z -> rule Rops) n (a b : R) (g : R -> R),
+  rule_oracle Rops table n a b g = rapply (gq_transfer Rops (table n) a b) g.
+Proof. intros. unfold rule_oracle. rewrite ssum_R, fold_rapply. reflexivity. Qed.
+
+Theorem gl_adapter_is_rule : forall (table : Z -> rule Rops) (func : R -> C) (a b : R) degree,
+  integrate_GaussLegendre Rops (rule_oracle Rops table) func a b degree =
+  apply_rule Rops (gq_transfer Rops (table (gl_points degree)) a b) func.
+Proof.
+  intros. unfold integrate_GaussLegendre. cbv zeta. rewrite !rule_oracle_R, apply_rule_R. reflexivity.
+Qed.
+
+Lemma rapply_swap : forall (rx ry : rule Rops) (g : R -> R -> R),
+  rapply rx (fun x => rapply ry (fun y => g x y)) = rapply ry (fun y => rapply rx (fun x => g x y)).
+Proof.
+  intros rx ry g. induction rx as [|[x w] rx IH].
+  - cbn [rapply fold_right]. rewrite (rapply_ext' ry _ (fun _ => 0 * 1)) by (intros y; ring). rewrite rapply_scal. ring.
+  - change (rapply ((x, w) :: rx) (fun x0 => rapply ry (fun y => g x0 y)))
+      with (w * rapply ry (fun y => g x y) + rapply rx (fun x0 => rapply ry (fun y => g x0 y))).
+    rewrite IH. rewrite <- rapply_scal, <- rapply_plus. apply rapply_ext'. intros y. reflexivity.
+Qed.
+
+Theorem gl_adapter_2d_is_rule : forall (table : Z -> rule Rops) (func : R -> R -> C) (a b c d : R) degree,
+  integrate2d_GaussLegendre Rops (rule_oracle Rops table) func a b c d degree =
+  apply_rule2 Rops (tensor Rops (gq_transfer Rops (table (gl_points degree)) a b) (gq_transfer Rops (table (gl_points degree)) c d)) func.
+Proof.
+  intros. unfold integrate2d_GaussLegendre. cbv zeta. rewrite apply_rule2_tensor_R.
+  cbn [vmk Rops]. f_equal.
+  - rewrite rule_oracle_R. rewrite (rapply_ext' _ _ (fun z => rapply (gq_transfer Rops (table (gl_points degree)) c d) (fun w => fst (func z w))))
+      by (intros z; apply rule_oracle_R). apply rapply_swap.
+  - rewrite rule_oracle_R. rewrite (rapply_ext' _ _ (fun z => rapply (gq_transfer Rops (table (gl_points degree)) c d) (fun w => snd (func z w))))
+      by (intros z; apply rule_oracle_R). apply rapply_swap.
+Qed.
+
+(* 1-D: if the [gl_points degree]-point rule of the table carries a certificate, the adapter integrates every complex
+   polynomial of degree <= d within the certificate bound *)
 Theorem gl_adapter_exact : forall (table : Z -> rule Rops) (degree : Z) (d : nat) (eps : R),
   (forall k, (k <= d)%nat -> Rabs (moment (table (gl_points degree)) k - leg_moment k) <= eps) ->
   forall (a b : R) (cs : list C), (length cs <= S d)%nat ->
-  Cmod (Cminus (integrate_GaussLegendre Rops table (cpeval Rops cs) a b degree) (cpint Rops cs a b))
+  Cmod (Cminus (integrate_GaussLegendre Rops (rule_oracle Rops table) (cpeval Rops cs) a b degree) (cpint Rops cs a b))
     <= eps * Rabs (tr_u a b) * scale_cmod cs (tr_M a b).
-Proof. intros table degree d eps H a b cs Hl. unfold integrate_GaussLegendre. apply (rule_certificate_transfer _ d eps H a b cs Hl). Qed.
+Proof. intros table degree d eps H a b cs Hl. rewrite gl_adapter_is_rule. apply (rule_certificate_transfer _ d eps H a b cs Hl). Qed.
 
 Theorem gl_adapter_linear : forall (table : Z -> rule Rops) (degree : Z) (alpha beta : C) (f g : R -> C) (a b : R),
-  integrate_GaussLegendre Rops table (fun x => Cplus (Cmult alpha (f x)) (Cmult beta (g x))) a b degree =
-  Cplus (Cmult alpha (integrate_GaussLegendre Rops table f a b degree)) (Cmult beta (integrate_GaussLegendre Rops table g a b degree)).
-Proof. intros. unfold integrate_GaussLegendre. apply rule_linear. Qed.
+  integrate_GaussLegendre Rops (rule_oracle Rops table) (fun x => Cplus (Cmult alpha (f x)) (Cmult beta (g x))) a b degree =
+  Cplus (Cmult alpha (integrate_GaussLegendre Rops (rule_oracle Rops table) f a b degree))
+        (Cmult beta (integrate_GaussLegendre Rops (rule_oracle Rops table) g a b degree)).
+Proof. intros. rewrite !gl_adapter_is_rule. apply rule_linear. Qed.
 
 (* 2-D: the nested adapter on a separable integrand is the product of the two 1-D adapters *)
 Theorem gl_adapter_2d_separable : forall (table : Z -> rule Rops) (degree : Z) (p q : R -> C) (a b c d : R),
-  integrate2d_GaussLegendre Rops table (fun x y => Cmult (p x) (q y)) a b c d degree =
-  Cmult (integrate_GaussLegendre Rops table p a b degree) (integrate_GaussLegendre Rops table q c d degree).
-Proof. intros. unfold integrate2d_GaussLegendre, integrate_GaussLegendre. cbv zeta. apply tensor_separable. Qed.
+  integrate2d_GaussLegendre Rops (rule_oracle Rops table) (fun x y => Cmult (p x) (q y)) a b c d degree =
+  Cmult (integrate_GaussLegendre Rops (rule_oracle Rops table) p a b degree)
+        (integrate_GaussLegendre Rops (rule_oracle Rops table) q c d degree).
+Proof. intros. rewrite gl_adapter_2d_is_rule, !gl_adapter_is_rule. apply tensor_separable. Qed.
+
+(* the Clenshaw-Curtis and Gauss-Kronrod arms: what the translated adapters hand to the external integrators *)
+Lemma cc_gk_adapters : forall (cc : (R -> R) -> R -> R -> R -> R) (gk : R -> nat -> (C -> C) -> C -> C -> C)
+    (f : R -> C) (g : R -> R -> C) (a b c d tol : R) iters,
+  integrate_ClenshawCurtis Rops cc f a b tol = (cc (fun x => fst (f x)) a b tol, cc (fun x => snd (f x)) a b tol) /\
+  integrate2d_ClenshawCurtis Rops cc g a b c d tol =
+    (cc (fun x => cc (fun y => fst (g x y)) c d tol) a b tol, cc (fun x => cc (fun y => snd (g x y)) c d tol) a b tol) /\
+  integrate_GaussKonrod Rops gk f a b tol iters = gk tol iters (fun z => f (fst z)) (a, 0) (b, 0) /\
+  integrate2d_GaussKonrod Rops gk g a b c d tol iters =
+    gk tol iters (fun z => gk tol iters (fun w => g (fst z) (fst w)) (c, 0) (d, 0)) (a, 0) (b, 0).
+Proof. intros. repeat split; reflexivity. Qed.
 
 (* degree 0 and 1 are served by the 2-point rule *)
 Lemma gl_points_small : forall degree, (degree <= 2)%Z -> gl_points degree = 2%Z.
@@ -265,7 +321,7 @@ Theorem gl_adapter_2d_exact : forall (table : Z -> rule Rops) (degree : Z) (d : 
   forall (a b c e : R) (cp cq : list C), (length cp <= S d)%nat -> (length cq <= S d)%nat ->
   let Bp := eps * Rabs (tr_u a b) * scale_cmod cp (tr_M a b) in
   let Bq := eps * Rabs (tr_u c e) * scale_cmod cq (tr_M c e) in
-  Cmod (Cminus (integrate2d_GaussLegendre Rops table (fun x y => Cmult (cpeval Rops cp x) (cpeval Rops cq y)) a b c e degree)
+  Cmod (Cminus (integrate2d_GaussLegendre Rops (rule_oracle Rops table) (fun x y => Cmult (cpeval Rops cp x) (cpeval Rops cq y)) a b c e degree)
                (Cmult (cpint Rops cp a b) (cpint Rops cq c e)))
     <= Bp * (Cmod (cpint Rops cq c e) + Bq) + Cmod (cpint Rops cp a b) * Bq.
 Proof.
